@@ -2,7 +2,9 @@
    One ROUND of the harness (G goroutines on one shared handle / one shared schema cache) yields
    two or three cases that differ only in [c_part]:
      part 0  everything except schema-initialisation races: results equal to the serial run,
-             returns after close, one winner per type, no hang / crash, no other gorm race;
+             returns after close, one winner per type, every return of a type with a malformed
+             relation carries an error and every return of a type that reaches none carries none
+             (errs_as_alone), no hang / crash, no other gorm race;
              and the model half: the observed coarse trace of the Parse calls is a trace of
              C07_Model (the witness schedule found by the harness is REPLAYED here with [run]),
              resp. for database rounds the set of model types built is the relation closure of
@@ -12,7 +14,7 @@
      part 2  (rounds with a shared Or-first Session handle) no race inside clause.Where.Build;
      part 3  (PrepareStmt rounds whose pool is smaller than the number of goroutines, with
              transactions) the round does not hang. *)
-From Verif Require Export Base C07_Model.
+From Verif Require Export Base C07_Model C07_ErrSpec.
 Open Scope Z_scope.
 
 Inductive vev :=
@@ -143,6 +145,18 @@ Fixpoint winners_ok (evs : list vev) (m : list (ty * nat)) : bool :=
   | _ :: r => winners_ok r m
   end.
 
+(* "the same result (error included) as alone", on the returns observed in a protocol round: alone
+   a model type with a malformed relation of its own always fails, a type that reaches no malformed
+   relation never does (in between the lone outcome is an error too, but the known getOrParse hazard
+   can hide it: those types are judged by the comparison with the serial run only) *)
+Definition errs_as_alone (c : case) : bool :=
+  forallb (fun e => match e with
+                    | VRet _ t _ err =>
+                        (if malformedb (c_cfg c) t then err else true) &&
+                        (if taintedb (c_cfg c) t then true else negb err)
+                    | _ => true
+                    end) (o_events c).
+
 Definition no_race_cat (c : case) (k : nat) : bool :=
   forallb (fun r => negb (Nat.eqb (fst (fst r)) k)) (o_races c).
 
@@ -154,6 +168,7 @@ Definition spec_holds (c : case) : bool :=
           && list_eqb (list_eqb res_eqb) (o_conc c) (o_serial c)
           && (o_final_c c =? o_final_s c)
           && winners_ok (o_events c) []
+          && errs_as_alone c
           && no_race_cat c 1)
   | 1%nat => no_race_cat c 0
   | 2%nat => no_race_cat c 3
